@@ -188,10 +188,23 @@ PLAN["C19"] = other(
     "KlattGrid and point-object files round-trip every number exactly on the stated bounded domain.",
     ["c19_klatt_roundtrip", "c19_points_roundtrip"], "; no deductive obligation is specific to C19 yet (stated)")
 PLAN["C20"] = other(
+    "Deductive: medianFilter (through the real _stepFilter) is proved, for series of any length and windows 0..8 with "
+    "and without edge padding, to return a list of the input's length whose element i is the median of element i and "
+    "its floor(window/2) neighbours on either side (edge values repeated / element unchanged near the edges); "
+    "getPitchMeasures is proved equal to the definitions for series of any length - mean = sum / count, max, min, "
+    "range = max - min, population variance = sum of squared deviations / count, deviation = its square root, all "
+    "zero for an empty series - with and without zero removal (exactly the zeros are removed) and median filtering "
+    "(edge padding on; windows None, 3, 4); detectPitchErrors is proved, for voiced tracks of any length and every "
+    "threshold in (0, 1], to mark exactly the samples whose pitch fell to at most the ratio of, or rose to at least "
+    "the inverse ratio of, the preceding sample, at the sample's time, labelled with the ratio, in order, and to "
+    "reject thresholds outside [0, 1]. statistics.median, sum and sqrt are uninterpreted (A6). "
     "Bounded: medianFilter, znormalizeData, rms, getPitchMeasures, detectPitchErrors, loadTimeSeriesData and the row "
     "filters against textbook definitions (exhaustive for short series over a small value set, random up to length 15).",
-    "Numeric series helpers match their definitions on the stated bounded domain.", ["c20_series"],
-    "; deductive obligations for _stepFilter's index logic are added when built (see evidence)")
+    "Median filtering, pitch measures and the jump detector equal their definitions for series of any length (proved; "
+    "median / sum / sqrt uninterpreted); z-normalisation, rms, the listing parser and the row filters on the stated "
+    "bounded domain.", ["c20_series"],
+    "; znormalizeData / rms / znormWindowFilter (statistics of an abstract list), loadTimeSeriesData (text) and "
+    "filterTimeSeriesData (rows are nested lists) are not under contract")
 
 PLAN["C12"] = other(
     "Deductive: addTier/removeTier/renameTier/replaceTier proved equal to the ordered-map spec (names, order, "
@@ -481,4 +494,11 @@ CANARIES = [
      "target": "spec.harness.tg_dict_roundtrip",
      "old": "\"xmin\": tier.minTimestamp,", "new": "\"xmin\": tg.minTimestamp,",
      "config": ["k=2,reportingMode=silence"]},
+    {"name": "pitch-variance-sample", "props": ["C20"], "file": "praatio/pitch_and_intensity.py",
+     "target": "praatio.pitch_and_intensity.getPitchMeasures",
+     "old": "for val in f0Values]) / counts", "new": "for val in f0Values]) / (counts - 1)",
+     "config": ["filterZeroFlag=False,window=None"]},
+    {"name": "pitch-jump-strict", "props": ["C20"], "file": "praatio/pitch_and_intensity.py",
+     "target": "praatio.pitch_and_intensity.detectPitchErrors",
+     "old": "(lastPitch >= ceilingCutoff)", "new": "(lastPitch > ceilingCutoff)"},
 ]
